@@ -320,7 +320,46 @@ def canon_binop(op, a, b, unsigned):
         return ("op", "&", a[2], ("const", -(1 << b[1])))
     if op == "!=" and a[0] == "size" and b == ("const", 0):
         return ("op", ">", a, b)
+    if op in ("+", "-"):
+        folded = _fold_constants(op, a, b)
+        if folded is not None:
+            return folded
     return ("op", op, a, b)
+
+
+def _fold_constants(op, a, b):
+    """In a chain of + and -, the constants are added up and written once, last: (1084 + x) - 16 is x + 1068.
+    Atoms keep their order. Returns None when there is nothing to fold (at most one constant, already last)."""
+    atoms = []      # (sign, term)
+    const = [0, 0]  # value, count
+
+    def walk(t, sign):
+        if t[0] == "const":
+            const[0] += sign * t[1]
+            const[1] += 1
+        elif t[0] == "op" and t[1] in ("+", "-") and len(t) == 4:
+            walk(t[2], sign)
+            walk(t[3], sign if t[1] == "+" else -sign)
+        else:
+            atoms.append((sign, t))
+    walk(a, 1)
+    walk(b, 1 if op == "+" else -1)
+    if const[1] == 0:
+        return None
+    if const[1] == 1 and b[0] == "const":
+        return None             # already `... + c`
+    if not atoms:
+        return ("const", const[0])
+    if atoms[0][0] < 0:
+        return None             # leading negative atom: leave as written
+    out = atoms[0][1]
+    for sg, t in atoms[1:]:
+        out = ("op", "+" if sg > 0 else "-", out, t)
+    if const[0] > 0:
+        out = ("op", "+", out, ("const", const[0]))
+    elif const[0] < 0:
+        out = ("op", "-", out, ("const", -const[0]))
+    return out
 
 
 def fmt_term(t):
@@ -427,9 +466,26 @@ class Facts:
                 if not fn.file.startswith(self.repo):
                     continue
                 ks = fn.kids(fn.body)
-                if not (len(ks) == 1 and fn.n(ks[0])["k"] == "ReturnStmt" and "value" in fn.n(ks[0])):
+                if not ks or fn.n(ks[-1])["k"] != "ReturnStmt" or "value" not in fn.n(ks[-1]):
                     continue
-                t = fn.term(fn.n(ks[0])["value"])
+                # leading statements may only name sub-expressions: const locals with an initialiser, static_asserts
+                ldefs = {}
+                okb = True
+                for k0 in ks[:-1]:
+                    n0 = fn.n(k0)
+                    if n0["k"] == "DeclStmt" and all(("init" in d and d.get("is_const") and not d.get("is_ref") and "d" in d) or d.get("k") == "StaticAssertDecl"
+                                                      or ("n" not in d) for d in n0.get("decls", [])):
+                        for d in n0.get("decls", []):
+                            if "init" in d and "d" in d:
+                                ldefs[("var", d["n"], d["d"])] = _subst_vars(fn.term(d["init"]), ldefs)
+                    elif n0["k"] in ("NullStmt",):
+                        pass
+                    else:
+                        okb = False
+                        break
+                if not okb:
+                    continue
+                t = _subst_vars(fn.term(fn.n(ks[-1])["value"]), ldefs)
                 if not fn.params:
                     if fn.cls and _pure_member_expr(t):
                         PURE_EXPRS[fn.key] = t
